@@ -33,7 +33,7 @@ ALL_OPS = {"listen", "connect", "accept", "write", "read", "shutdown", "close", 
 PURE = {
     "C06": ["PrefixInv", "EofOnlyAtEnd", "NoSpuriousAbort", "BoundedProgress"],
     "C16": ["CapsOk", "MssOk", "WindowOk", "UdpOk"],
-    "C13": ["AcceptOnce", "ConnectRule", "Reclaimed", "ConnectCompletes"],
+    "C13": ["AcceptOnce", "ConnectRule", "Reclaimed", "ConnectCompletes", "AcceptOffered"],
 }
 # ... and with the recorded family set aside (needs the ImplSpec state)
 TOLERANT = {
@@ -232,9 +232,15 @@ def random_configs(pid, tier, seed):
                           maxbytes=3, wmax=2, rmax=2, steps=400, listenfirst=1),
                      dict(c=consts(MaxP=6, Backlog=1, RetxT=3, RetxMax=3, PremD=1, PremAge=2, SendCap=4, RecvCap=4), nconn=6, maxdrops=1, maxage=2,
                           maxbytes=2, wmax=2, rmax=2, steps=400, listenfirst=0)]
+    if pid == "C16":
+        # receive cap below one MSS, first burst above the cap, pure ACKs lost, idle reader
+        base.append(dict(c=consts(MaxP=1, Mss=4, SendCap=8, RecvCap=3, Backlog=1, RetxT=3, RetxMax=3, PremD=1), mode="overlap", nconn=1,
+                         maxdrops=3, maxage=0, maxbytes=8, wmax=8, rmax=2, steps=0))
     if pid == "C13":
         base.append(dict(c=consts(MaxP=1, Mss=2, SendCap=4, RecvCap=4, Backlog=1, RetxT=2, RetxMax=2, PremD=1), mode="simclose", nconn=1,
                          maxdrops=1, maxage=0, maxbytes=4, wmax=2, rmax=2, steps=0, closeprob=80, wild=2))
+        base.append(dict(c=consts(MaxP=1, Mss=2, SendCap=4, RecvCap=4, Backlog=1, RetxT=2, RetxMax=2, PremD=1), mode="hsackloss", nconn=1,
+                         maxdrops=1, maxage=0, maxbytes=2, wmax=2, rmax=2, steps=0))
         base.append(dict(c=consts(MaxP=2, Mss=2, SendCap=4, RecvCap=4, Backlog=2, RetxT=3, RetxMax=2, PremD=0, PremAge=1), mode="lsndrop",
                          nconn=2, maxdrops=0, maxage=1, maxbytes=2, wmax=2, rmax=2, steps=0, wild=2))
     out = []
